@@ -269,6 +269,13 @@ fn subject(name: &'static str, one_blob: bool, raw: &RawKey) -> Subject {
         t.insert("a/f1", Entry::file(lcg(10 + v, 100), T0 + 1 + v as i64));
         t.insert("a/f2", Entry::file(lcg(20 + v, 100), T0 + 2 + v as i64));
         t.insert("b/g", Entry::file(lcg(30, 250), T0 + 3));
+        if v == 0 {
+            // compressible single-chunk files of different lengths: several of them compress to the
+            // same size, so that their one-blob packs share the layout but not the plain length
+            for n in (30..64usize).step_by(3) {
+                t.insert(&format!("c/rep{n}"), Entry::file(b"abcd".iter().cycle().take(n).copied().collect::<Vec<u8>>(), T0 + 4));
+            }
+        }
         let repo = env.open_ids().expect("open");
         _ = backup_with(&repo, &MemSource::new("r", t.clone()), &format!("s{v}"), T0 + 1000 + v as i64, &bopts()).expect("backup");
         _ = model.insert(format!("s{v}"), model_tree("r", &t));
@@ -350,7 +357,10 @@ fn observe(sub: &Subject, faulted: &Store) -> Result<(), (String, String)> {
             let bt = if *tpe == 1 { BlobType::Tree } else { BlobType::Data };
             if let Ok(d) = full.cat_blob(bt, id) {
                 if d[..] != plain[..] {
-                    return Err(("blob".into(), format!("cat_blob({bt},{}) returned different content", &id[..8])));
+                    // (content of the same length is the recorded finding: the plaintext hash is never
+                    // compared with the blob id; another length contradicts the index as well)
+                    let what = if d.len() == plain.len() { "blob" } else { "blob-of-other-length" };
+                    return Err((what.into(), format!("cat_blob({bt},{}) returned different content ({} bytes, the blob has {})", &id[..8], d.len(), plain.len())));
                 }
             }
         }
